@@ -56,6 +56,14 @@ K00: List[tuple] = [
 
 
 def extract(ctx: Ctx):
+    import sys as _sys
+
+    from common import LEAN as _LEAN, REPO as _REPO, VERIF as _VERIF
+
+    _sys.path.insert(0, str(_VERIF / "extract"))
+    import handler_consts
+
+    handler_consts.write(_REPO, _LEAN)
     pe.extract_group(ctx)
 
 
